@@ -39,7 +39,7 @@ from mirsmt import (div_lemma, parse_mir, Interp, State, CORE, CORE_DOC, NotEnco
 MIN32 = -(1 << 31)
 MAX32 = (1 << 31) - 1
 
-BIN_OPS = "plus subtract multiply divide integer_divide remainder bitwise_and bitwise_or bitwise_xor bitwise_shift_left bitwise_shift_right".split()
+BIN_OPS = "plus subtract multiply divide integer_divide remainder power bitwise_and bitwise_or bitwise_xor bitwise_shift_left bitwise_shift_right".split()
 UN_OPS = "absolute_value opposite increment decrement bitwise_not".split()
 REL_OPS = ["eq", "partial_cmp"]
 KIND = {0: "i", 1: "f"}
@@ -365,9 +365,12 @@ def selftest(fns, exe):
         arity = 1 if op in UN_OPS else 2
         for kinds in ([(0, 0), (0, 1), (1, 0), (1, 1)] if arity == 2 else [(0,), (1,)]):
             try:
-                vars_, leaves, _ = encode(fns, op, kinds)
+                vars_, leaves, it_ = encode(fns, op, kinds)
             except NotEncoded as e:
                 not_encoded.append("%s%s: %s" % (op, kinds, e))
+                continue
+            if it_.unconstrained:
+                not_encoded.append("%s%s: value not modelled (%s): no-panic queries only" % (op, kinds, ", ".join(sorted(set(it_.unconstrained)))))
                 continue
             lat = [INT_LATTICE if k == 0 else FLT_LATTICE for k in kinds]
             combos = [(a,) for a in lat[0]] if arity == 1 else [(a, b) for a in lat[0][::2] + lat[0][-1:] for b in lat[1]]
@@ -625,6 +628,9 @@ def run_query(q, fns, exes, z3_timeout, cvc5_timeout):
     except NotEncoded as e:
         res.update({"verdict": "not encoded: %s" % e, "time_s": 0.0})
         return res
+    if it.unconstrained and q["family"] != "nopanic":
+        res.update({"verdict": "not encoded: the value of %s is not modelled" % ", ".join(sorted(set(it.unconstrained))), "time_s": 0.0})
+        return res
     res["leaves"] = len(leaves)
     res["mir_functions_inlined"] = sorted(it.inlined)
     res["core_models_used"] = sorted(it.used_core)
@@ -718,7 +724,7 @@ def queries_for(prop, tier):
     arms2 = [(0, 0), (0, 1), (1, 0), (1, 1)]
     nm = lambda op, kinds: "%s_%s" % (op, "".join(KIND[k] for k in kinds))
     if prop == "C09":
-        for op in BIN_OPS:
+        for op in [o for o in BIN_OPS if o != "power"]:
             qs.append(dict(name=nm(op, (0, 0)), op=op, kinds=(0, 0), family="arith", what="Integer x Integer, every pair of i32 values: exact result when it fits i32, None (unit) otherwise; division and remainder through the division lemma a = q*b + r, |r| < |b|, sign(r) = sign(a) with fresh q, r"))
         for op in UN_OPS:
             qs.append(dict(name=nm(op, (0,)), op=op, kinds=(0,), family="arith", what="every i32: exact or None"))
